@@ -200,4 +200,51 @@ theorem R_init : R PState.init {} := by
   refine ⟨rfl, rfl, rfl, ?_⟩
   simp [Dat, fl_ground, PState.init]
 
+
+/-! ### where the recorded deviations F102 / F102c can show at all -/
+
+/-- The two situations in which a `Dev` switch changes the reference machine:
+    F102 — an ESC arrives in a control-string state that was entered by the previous rune (the
+    string has no payload yet); F102c — a rune other than ESC keeps the machine in `escape` (a C0
+    control is executed there) while the ST suppression is pending. -/
+def trigger (m : M) (c : Nat) : Bool :=
+  (c == 0x1B && Spec.VT500.isString m.s && m.fresh) ||
+  (c != 0x1B && decide ((Spec.VT500.trans m.s (.rune c)).2 = .escape) && m.afterString)
+
+/-- The stream never gets into one of the two situations (along the run of the Spec proper). -/
+def Avoids : M → List Nat → Bool
+  | _, [] => true
+  | m, c :: rest => !trigger m c && Avoids (Spec.VT500.stepRune m c).1 rest
+
+theorem stepRuneD_eq (d : Spec.VT500.Dev) (m : M) (c : Nat) (h : trigger m c = false) :
+    Spec.VT500.stepRuneD d m c = Spec.VT500.stepRune m c := by
+  simp only [Spec.VT500.stepRune, Spec.VT500.stepRuneD, Spec.VT500.Dev.none]
+  simp only [trigger, Bool.or_eq_false_iff, Bool.and_eq_false_iff] at h
+  obtain ⟨h1, h2⟩ := h
+  by_cases hc : c = 0x1B
+  · subst hc
+    simp only [beq_self_eq_true, Bool.true_eq_false, false_or] at h1
+    rcases h1 with h1 | h1
+    · simp [h1]
+    · simp [h1]
+  · have hne : (c != 0x1B) = true := by simp [hc]
+    simp only [hne, Bool.true_eq_false, false_or, decide_eq_false_iff_not] at h2
+    simp only [hc, if_false]
+    rcases h2 with h2 | h2
+    · simp [h2]
+    · simp [h2]
+
+theorem runFromD_eq (d : Spec.VT500.Dev) (m : M) (rs : List Nat) (h : Avoids m rs = true) :
+    Spec.VT500.runFromD d m rs = Spec.VT500.runFrom m rs := by
+  induction rs generalizing m with
+  | nil => rfl
+  | cons c rest ih =>
+    simp only [Avoids, Bool.and_eq_true, Bool.not_eq_eq_eq_not, Bool.not_true] at h
+    have h1 := stepRuneD_eq d m c h.1
+    have h2 := stepRuneD_eq Spec.VT500.Dev.none m c h.1
+    simp only [Spec.VT500.runFrom, Spec.VT500.runFromD, h1]
+    simp only [Spec.VT500.stepRune] at h2 ⊢
+    rw [ih _ (by simpa [Spec.VT500.stepRune] using h.2)]
+    rfl
+
 end VaxisModel.Lemmas.ParserRefineRun
